@@ -343,7 +343,7 @@ pub fn spi_case(data: &[u8]) -> SpiCase {
             break;
         }
     }
-    SpiCase { n, buf, ops }
+    SpiCase { n, buf, ops, alt: None }
 }
 
 pub fn par_case(data: &[u8]) -> ParCase {
